@@ -533,7 +533,18 @@ class CParser(RecursiveDescentParser):
         = {.foobar = {23, 3}}; // C99
         = {[2..5] = 2}; // C99
         """
-        if self.peek == "{":
+        if (
+            self.peek == "{"
+            and typ.is_char_array
+            and self.look_ahead(1)
+            and self.look_ahead(1).typ == "STRING"
+        ):
+            # char s[] = {"abc"};  optional braces around the string
+            self.consume("{")
+            initializer = self.parse_array_string_initializer(typ)
+            self.has_consumed(",")
+            self.consume("}")
+        elif self.peek == "{":
             initializer = self.parse_initializer_list(typ)
         elif typ.is_char_array and self.peek == "STRING":
             initializer = self.parse_array_string_initializer(typ)
@@ -626,6 +637,10 @@ class CParser(RecursiveDescentParser):
         typ = init_cursor.level.element_typ()
         if self.peek == "{":
             initializer = self.parse_initializer_list_sub(init_cursor, typ)
+        elif typ.is_char_array and self.peek == "STRING":
+            # A character array element initialized by a string literal:
+            initializer = self.parse_array_string_initializer(typ)
+            self.semantics.init_store(init_cursor, initializer)
         else:
             initializer = self.parse_constant_expression()
             self.semantics.init_store(init_cursor, initializer)
